@@ -722,3 +722,82 @@ Proof.
   - apply Forall_forall. intros x I. apply in_map_iff in I. destruct I as (x0 & <- & _). apply ct_calc_exp_ok.
   - reflexivity.
 Qed.
+
+(* ------------------------------------------------------------------------------------------ *)
+(* how the above sits inside `calculate`                                                      *)
+(* ------------------------------------------------------------------------------------------ *)
+Definition doc_sum (d : doc) (lcs : list line_calc) : amount :=
+  fold_left acc (map lc_total lcs) (zero_of (d_c d)).
+Definition doc_ddc (d : doc) (lcs : list line_calc) (xs : list ddc) : list (ddc * amount) :=
+  map (fun x => (x, ddc_amount (d_currency_rule d) (d_c d) (doc_sum d lcs) x)) xs.
+(* the rows handed to the tax calculator: one per line (its total), one per document discount
+   (its amount negated), one per document charge *)
+Definition doc_rows (d : doc) (lcs : list line_calc) : list tax_line :=
+  tax_lines lcs (d_lines d) (doc_ddc d lcs (d_discounts d)) (doc_ddc d lcs (d_charges d)).
+
+Lemma calculate_tax_structure d t : calculate d = Totals t ->
+  exists lcs rows,
+    calc_lines (d_currency_rule d) (d_c d) (d_cur d) (d_rates d) (d_lines d) = Some lcs /\
+    remove_included_all (d_pit d) (map (prepare_tl (d_c d)) (doc_rows d lcs)) = Some rows /\
+    let cats := map (ct_calc (d_currency_rule d) (d_c d)) (base_totals (d_currency_rule d) (d_c d) rows) in
+    t_cats t = map (ct_round (d_c d)) cats /\
+    t_taxsum_precise t = fold_left (sum_step (d_currency_rule d)) cats (zero_of (d_c d)) /\
+    t_taxsum t = rescale (t_taxsum_precise t) (d_c d).
+Proof.
+  unfold calculate. intros H.
+  destruct (calc_lines _ _ _ _ _) as [lcs|] eqn:EL; [|discriminate].
+  fold (doc_sum d lcs) in H. fold (doc_ddc d lcs (d_discounts d)) in H. fold (doc_ddc d lcs (d_charges d)) in H.
+  fold (doc_rows d lcs) in H.
+  destruct (doc_rows d lcs) as [|r0 rs] eqn:ER; [discriminate|].
+  destruct (remove_included_all _ _) as [rows|] eqn:ERem; [|discriminate].
+  exists lcs, rows. split; [reflexivity|]. split; [rewrite ER; exact ERem|].
+  injection H as <-. cbn [t_cats t_taxsum_precise t_taxsum]. repeat split.
+Qed.
+
+(* preparing a row and taking an included tax out of it never changes its combos; the total is
+   raised to two more decimals than the currency and, when the row carries the included
+   category with a percentage p, divided by 1 + p at that precision *)
+Lemma prepare_tl_spec c tl :
+  tl_taxes (prepare_tl c tl) = tl_taxes tl /\ toQ (tl_total (prepare_tl c tl)) == toQ (tl_total tl) /\
+  (tl_taxes tl <> [] -> exp (tl_total (prepare_tl c tl)) = Nat.max (exp (tl_total tl)) (c + tax_precision_extra)).
+Proof.
+  unfold prepare_tl. destruct (tl_taxes tl) eqn:E.
+  - split; [exact E|]. split; [reflexivity|]. intros H. congruence.
+  - cbn [tl_taxes tl_total]. split; [reflexivity|]. split; [apply rescale_up_toQ|]. intros _. apply rescale_up_exp.
+Qed.
+
+Lemma remove_included_spec pit tl tl' : remove_included pit tl = Some tl' ->
+  tl_taxes tl' = tl_taxes tl /\
+  match get_combo pit (tl_taxes tl) with
+  | Some cb =>
+    match pit, cb_pct cb with
+    | _ :: _, Some p => cb_retained cb = false /\ tl_total tl' = remove (tl_total tl) p
+    | _, _ => tl_total tl' = tl_total tl
+    end
+  | None => tl_total tl' = tl_total tl
+  end.
+Proof.
+  unfold remove_included. destruct pit as [|b pit].
+  - intros E. injection E as <-. split; [reflexivity|]. destruct (get_combo _ _); reflexivity.
+  - destruct (get_combo (b :: pit) (tl_taxes tl)) as [cb|].
+    + destruct (cb_retained cb); [discriminate|]. destruct (cb_pct cb).
+      * intros E. injection E as <-. repeat split.
+      * intros E. injection E as <-. repeat split.
+    + intros E. injection E as <-. repeat split.
+Qed.
+
+Lemma included_tax_taken_out a p : (val (factor p) <> 0)%Z ->
+  val (remove a p) = roundQ (exp a) (toQ a / (toQ p + 1)) /\ exp (remove a p) = exp a.
+Proof. intros H. split; [apply remove_val, H|reflexivity]. Qed.
+
+Lemma remove_included_all_taxes pit tls tls' : remove_included_all pit tls = Some tls' ->
+  map tl_taxes tls' = map tl_taxes tls.
+Proof.
+  revert tls'. induction tls as [|tl r IH]; intros tls'; cbn [remove_included_all].
+  - intros E. injection E as <-. reflexivity.
+  - destruct (remove_included pit tl) as [x|] eqn:E1; [|discriminate].
+    destruct (remove_included_all pit r) as [xs|]; [|discriminate].
+    intros E. injection E as <-. cbn [map]. f_equal.
+    + apply (remove_included_spec pit tl x E1).
+    + apply IH. reflexivity.
+Qed.
